@@ -431,5 +431,35 @@ func c05RecordFacts() string {
 	s += "def src_setLine_flags : List String := " + leanStrList(mention(findFunc(io, "interp", "setLine"))) + "\n"
 	s += "def src_ensureFields_flags : List String := " + leanStrList(mention(findFunc(io, "interp", "ensureFields"))) + "\n"
 	s += "def src_getField : String := " + leanStr(oneLine(findFunc(parseFile("interp/interp.go"), "interp", "getField").Body)) + "\n"
+	// CONVFMT / OFMT state: every field of `type interp struct` whose name contains "Format" (a derived cached copy would
+	// show up here), how toString uses it, and what resetVars resets
+	ip := parseFile("interp/interp.go")
+	var fields []string
+	ast.Inspect(ip, func(n ast.Node) bool {
+		ts, ok := n.(*ast.TypeSpec)
+		if !ok || ts.Name.Name != "interp" {
+			return true
+		}
+		if st, ok := ts.Type.(*ast.StructType); ok {
+			for _, f := range st.Fields.List {
+				for _, nm := range f.Names {
+					if strings.Contains(nm.Name, "Format") {
+						fields = append(fields, nm.Name)
+					}
+				}
+			}
+		}
+		return false
+	})
+	s += "/-- interp.go: fields of `interp` holding a number format; `toString`; the format resets of `resetVars` -/\n"
+	s += "def interpFormatFields : List String := " + leanStrList(fields) + "\n"
+	s += "def src_toString : String := " + leanStr(oneLine(findFunc(ip, "interp", "toString").Body)) + "\n"
+	var resets []string
+	for _, st := range findFunc(parseFile("interp/newexecute.go"), "interp", "resetVars").Body.List {
+		if t := oneLine(st); strings.Contains(t, "ormat") {
+			resets = append(resets, t)
+		}
+	}
+	s += "def src_resetVars_formats : List String := " + leanStrList(resets) + "\n"
 	return s
 }
